@@ -1,271 +1,40 @@
 // C05 — JSON parser is total and standard-conformant; strict mode = no extensions.
 //
-// E-ENUM over the real phosg::JSON::parse (all three entry points x {default, strict}) on
+// E-ENUM over the real phosg::JSON::parse (all three entry points x {default, strict}; plus the defaulted-mode overloads
+// and readers positioned inside a larger buffer, see C05_common.hh) on
 //   bytes16 / bytes28 : every byte string over a reduced / the full alphabet up to a length bound
 //   grammar           : every derivation of the RFC 8259 grammar up to a token bound, three whitespace
 //                       renderings, every truncation, delimiter/junk suffixes
 //   ext               : the same documents rewritten with each documented extension
 //   mutate            : every single-byte substitution / insertion / deletion of a document corpus
-//   deep              : 500-deep lists / dictionaries / mixed, every truncation
-// against the reference models R_std / R_ext of C04_jsonref.hh.  One oracle (check_text) is used for
-// every text; the sections differ only in what they enumerate.
+//   deep              : 499/500/501-deep lists / dictionaries / mixed, every truncation
+// against the reference models R_std / R_ext of C04_jsonref.hh.  One oracle (c05::check_text) is used for
+// every text; the sections differ only in what they enumerate.  Round-2 sections (allbytes, bounds, hist, soak,
+// contexts, streams) are in C05_r2.cc.
 //
-// Inputs live in exact-size malloc() blocks without terminator, so a read past the end is an ASan
-// report (attributed to the case by check.py).
-#include <stdlib.h>
-#include <string.h>
-
-#include <map>
-#include <string>
-#include <vector>
-
-#include "C04_jsonref.hh"
-#include "JSON.hh"
-#include "vf.hh"
+// Inputs live in exact-size malloc() blocks without terminator, so a read past the end is an ASan report
+// (attributed to the case by check.py).
+#include "C05_common.hh"
 
 using namespace phosg;
+using namespace c05;
 
 namespace {
-
-enum Entry { E_READER = 0, E_PTR = 1, E_STRING = 2 };
-const char* entry_name[] = {"reader", "ptr", "string"};
-
-struct Obs {
-  int status = 0;  // 0 returned, 1 parse_error, 2 out_of_range, 3 anything else
-  std::string exc;
-  JSON value;
-  size_t where = 0;
-};
-
-Obs run_parse(Entry e, const char* buf, size_t n, bool strict) {
-  Obs o;
-  try {
-    switch (e) {
-      case E_READER: {
-        StringReader rd(buf, n);
-        try {
-          o.value = JSON::parse(rd, strict);
-        } catch (...) {
-          o.where = rd.where();
-          throw;
-        }
-        o.where = rd.where();
-        break;
-      }
-      case E_PTR:
-        o.value = JSON::parse(buf, n, strict);
-        break;
-      case E_STRING: {
-        std::string s(buf, n);
-        o.value = JSON::parse(s, strict);
-        break;
-      }
-    }
-  } catch (const JSON::parse_error&) {
-    o.status = 1;
-  } catch (const std::out_of_range&) {
-    o.status = 2;
-  } catch (const JSON::type_error&) {
-    o.status = 3;
-    o.exc = "JSON::type_error";
-  } catch (const std::bad_alloc&) {
-    o.status = 3;
-    o.exc = "bad_alloc";
-  } catch (const std::logic_error&) {
-    o.status = 3;
-    o.exc = "logic_error";
-  } catch (const std::runtime_error&) {
-    o.status = 3;
-    o.exc = "runtime_error";
-  } catch (const std::exception&) {
-    o.status = 3;
-    o.exc = "std::exception";
-  } catch (...) {
-    o.status = 3;
-    o.exc = "non-std";
-  }
-  return o;
-}
-
-const char* status_name(const Obs& o) {
-  switch (o.status) {
-    case 0: return "returned";
-    case 1: return "parse_error";
-    case 2: return "out_of_range";
-  }
-  return o.exc.c_str();
-}
-
-bool safe_follower(const std::string& s, size_t i) {
-  if (i >= s.size()) return true;
-  char c = s[i];
-  return c == ' ' || c == '\t' || c == '\n' || c == '\r' || c == ',' || c == ']' || c == '}';
-}
-
-// coarse content tag for "rejected" keys, so that the two known causes do not share a key
-const char* feature(const jref::Val& v) {
-  if (v.has_empty_container()) return "empty-container";
-  if (v.has_exp_number()) return "exponent-number";
-  return "other";
-}
-
-std::string show_obs(const Obs& o) {
-  if (o.status) return std::string("threw ") + status_name(o);
-  std::string t;
-  try {
-    t = o.value.serialize(JSON::SerializeOption::SORT_DICT_KEYS);
-  } catch (...) {
-    t = "(unserializable)";
-  }
-  if (t.size() > 120) t = t.substr(0, 120) + "...";
-  return "returned " + std::string(o.value.is_int() ? "int " : o.value.is_float() ? "float " : "") + t;
-}
-
-std::string show_ref(const jref::Result& r) {
-  if (!r.prefix_ok) return std::string("rejects (") + r.why + " at " + std::to_string(r.err_pos) + ")";
-  std::string c = jref::canon(r.value);
-  if (c.size() > 120) c = c.substr(0, 120) + "...";
-  return std::string(r.accepted ? "accepts" : "value prefix") + " value=" + c + " extent=" + std::to_string(r.value_end);
-}
-
-constexpr double TOL = 1e-9;
-
-// [eE][+-]?[0-9]{7,}
-bool huge_exponent(const std::string& s) {
-  for (size_t i = 0; i + 7 < s.size(); i++) {
-    if (s[i] != 'e' && s[i] != 'E') continue;
-    size_t j = i + 1;
-    if (j < s.size() && (s[j] == '+' || s[j] == '-')) j++;
-    size_t d = 0;
-    while (j + d < s.size() && s[j + d] >= '0' && s[j + d] <= '9') d++;
-    if (d >= 7) return true;
-  }
-  return false;
-}
-
-std::string brief(const std::string& s) {
-  if (s.size() <= 160) return vf::show(s);
-  return vf::show(s.substr(0, 60)) + vf::fmt("...(%zu bytes)...", s.size()) + vf::show(s.substr(s.size() - 40));
-}
-
-// The single oracle.  `s` is the text; dat (may be null) receives the Python-binding line.
-void check_text(vf::Run& r, const std::string& s, FILE* dat) {
-  const size_t n = s.size();
-  jref::Result st = jref::parse(s, false);
-  jref::Result ex = st.accepted ? st : jref::parse(s, true);
-  jref::dat_line(dat, s, st);
-  if (dat) r.counters["texts_written_for_python"]++;
-
-  if (huge_exponent(s)) {
-    // outside the statement (beyond double range) and the parser's exponent loop is O(10^digits): a 2^31-iteration
-    // loop terminates but takes seconds, so these are classified, bound to Python, and not executed
-    r.ok("not-executed:exponent-of-7+-digits(outside double range; exponent loop is linear in the exponent)");
-    return;
-  }
-  char* buf = (char*)malloc(n);  // exact size, no terminator
-  if (n) memcpy(buf, s.data(), n);
-
-  bool any_returned = false, any_fail = false;
-  auto bad = [&](const std::string& key, const Obs& o, const char* mode, Entry e, const jref::Result& ref, const char* expect) {
-    any_fail = true;
-    r.fail(key, [&] {
-      return vf::fmt("parse(%s) via %s entry, %s mode: %s; expected: %s [reference %s: %s]", brief(s).c_str(), entry_name[e], mode,
-          (show_obs(o) + (e == E_READER && !o.status ? vf::fmt(" where()=%zu", o.where) : std::string())).c_str(), expect,
-          &ref == &st ? "R_std" : "R_ext", show_ref(ref).c_str());
-    });
-  };
-
-  for (int strict = 0; strict < 2; strict++) {
-    const char* M = strict ? "strict" : "default";
-    const jref::Result& P = strict ? st : ex;  // what this mode is documented to understand
-    for (int ei = 0; ei < 3; ei++) {
-      Entry e = (Entry)ei;
-      Obs o = run_parse(e, buf, n, strict);
-      r.transitions++;
-      if (o.status == 0) any_returned = true;
-      // (1) totality: only the documented exception types
-      if (o.status == 3) {
-        bad("undocumented-exception:" + o.exc, o, M, e, P, "a value, JSON::parse_error or std::out_of_range");
-        continue;
-      }
-      // a value mismatch in a number/string leaf is the same defect whether or not the document also uses an
-      // extension; mismatches in what extensions produce (ints, constants, shape) are keyed by the extension
-      auto value_key = [&](const std::string& tag, unsigned extmask) {
-        if (extmask && tag != "float" && tag != "float-exp" && tag != "string") return std::string("extension:wrong-value:") + jref::ext_name(extmask);
-        return "standard:wrong-value:" + tag;
-      };
-      if (e != E_READER) {
-        // (2) string entry points
-        if (st.accepted && !st.outside()) {
-          if (o.status) bad(std::string("standard:rejected:") + M + ":" + feature(st.value), o, M, e, st, "accepted (standard JSON)");
-          else {
-            std::string t = jref::differs(o.value, st.value, TOL, false);
-            if (!t.empty()) bad(value_key(t, 0), o, M, e, st, "the reference value");
-          }
-        } else if (!st.accepted && ex.accepted && !ex.outside()) {
-          if (!strict) {
-            if (o.status) bad(std::string("extension:rejected-by-default:") + jref::ext_name(ex.ext_used), o, M, e, ex, "accepted (documented extension)");
-            else {
-              std::string t = jref::differs(o.value, ex.value, TOL, false);
-              if (!t.empty()) bad(value_key(t, ex.ext_used), o, M, e, ex, "the documented meaning");
-            }
-          } else if (o.status == 0) {
-            bad(std::string("extension:accepted-by-strict:") + jref::ext_name(ex.ext_used), o, M, e, ex, "rejected (disable_extensions=true)");
-          }
-        } else if (P.prefix_ok && P.junk_after && !P.outside() && safe_follower(s, P.value_end)) {
-          // complete value, delimiter, then something that is neither whitespace nor (default mode) a comment
-          if (o.status == 0) bad(std::string("trailing-data-accepted:") + M, o, M, e, P, "rejected (non-whitespace after the value)");
-        }
-      } else {
-        // (3) reader entry point: exactly the extent of one value
-        if (P.prefix_ok && !P.outside() && safe_follower(s, P.value_end)) {
-          if (o.status) {
-            if (P.ext_in_value) bad(std::string("extension:rejected-by-default:") + jref::ext_name(P.ext_in_value), o, M, e, P, "a value (documented extension)");
-            else bad(std::string("standard:rejected:") + M + ":" + feature(P.value), o, M, e, P, "a value (standard JSON)");
-          } else {
-            std::string t = jref::differs(o.value, P.value, TOL, false);
-            if (!t.empty()) bad(value_key(t, P.ext_in_value), o, M, e, P, "the reference value");
-            else if (o.where != P.value_end) bad(std::string("reader:wrong-extent:") + M, o, M, e, P, "where() == extent of the value");
-          }
-        } else if (strict && ex.prefix_ok && ex.ext_in_value && !ex.outside() && safe_follower(s, ex.value_end)) {
-          if (o.status == 0 && o.where == ex.value_end)
-            bad(std::string("extension:accepted-by-strict:") + jref::ext_name(ex.ext_in_value), o, M, e, ex, "an exception or an earlier stop (disable_extensions=true)");
-        }
-      }
-    }
-  }
-  free(buf);
-
-  if (any_returned || ex.prefix_ok) r.nontriv();
-  if (any_fail) return;
-  const char* cls;
-  if (st.accepted) cls = st.outside() ? "standard-but-outside-statement(totality-only)" : "standard:accepted-with-reference-value";
-  else if (ex.accepted) cls = ex.outside() ? "extension-but-outside-statement(totality-only)" : "extension:default-accepts,strict-rejects";
-  else if (ex.prefix_ok && !ex.outside() && safe_follower(s, ex.value_end)) cls = "value+trailing-data:reader-extent-checked,string-entries-reject";
-  else if (any_returned) cls = "reference-rejects,library-lenient(dont-care)";
-  else cls = "reference-rejects,library-rejects";
-  r.ok(cls);
-}
-
-inline void text_case(vf::Run& r, const std::string& s, FILE* dat) {
-  if (r.wants_desc()) r.desc("text " + vf::show(s.size() > 300 ? s.substr(0, 300) : s) + (s.size() > 300 ? vf::fmt("... (%zu bytes)", s.size()) : std::string()));
-  check_text(r, s, dat);
-}
 
 // ---- alphabets --------------------------------------------------------------------------------
 
 const std::string SIGMA16 = std::string("{}[],:\"\\/01-.en\n");
 const std::string SIGMA28 = std::string("{}[],:\"\\/01-+.exntfulars \n") + std::string(1, '\0') + std::string(1, '\x80');
 
-void bytes_section(vf::Run& r, const std::string& sigma, size_t maxlen, size_t dat_maxlen) {
+void bytes_section(vf::Run& r, const std::string& sigma, size_t maxlen, size_t dat_maxlen, size_t full_maxlen) {
   FILE* dat = jref::dat_open(r.section, r.shard);
   r.note("JSON::parse");
   vf::all_strings(sigma, maxlen, [&](const std::string& s) {
     if (!r.take()) return;
-    text_case(r, s, s.size() <= dat_maxlen ? dat : nullptr);
+    text_case(r, s, s.size() <= dat_maxlen ? dat : nullptr, s.size() <= full_maxlen ? ES_FULL : ES_CORE);
   });
   if (dat) fclose(dat);
-  r.bound = vf::fmt("all byte strings over %zu symbols, length 0..%zu, x {default,strict} x {reader,ptr+size,std::string}", sigma.size(), maxlen);
+  r.bound = vf::fmt("all byte strings over %zu symbols, length 0..%zu, x {default,strict} x {reader,ptr+size,std::string}; length 0..%zu also through the defaulted-mode overloads and readers at offsets 1 and 10", sigma.size(), maxlen, full_maxlen);
 }
 
 // ---- grammar-generated documents --------------------------------------------------------------
@@ -356,14 +125,24 @@ std::string render(const Toks& t, int ws) {
 }
 
 // All generated documents of the tier, simplest first.
-std::vector<Toks> grammar_docs(bool thorough) {
-  std::vector<Toks> docs;
+// (Documents of the quick tier are flagged: the thorough tier treats them exactly as the quick tier does.)
+struct GDoc {
+  Toks toks;
+  bool in_quick;
+};
+std::vector<GDoc> grammar_docs2(bool thorough) {
+  std::vector<GDoc> docs;
   Gen full = make_gen(true), rep = make_gen(false);
   int full_max = thorough ? 7 : 5, rep_max = thorough ? 9 : 7;
   for (int n = 1; n <= rep_max; n++) {
-    if (n <= full_max) for (auto& d : full.values(n)) docs.push_back(d);
-    else for (auto& d : rep.values(n)) docs.push_back(d);
+    if (n <= full_max) for (auto& d : full.values(n)) docs.push_back({d, n <= 5});
+    else for (auto& d : rep.values(n)) docs.push_back({d, !thorough});
   }
+  return docs;
+}
+std::vector<Toks> grammar_docs(bool thorough) {
+  std::vector<Toks> docs;
+  for (auto& d : grammar_docs2(thorough)) docs.push_back(d.toks);
   return docs;
 }
 
@@ -372,19 +151,22 @@ const std::vector<std::string> SUFFIXES = {" ", ",", "]", "}", " x", "\n1", " \t
 }  // namespace
 
 VF_SECTION(bytes16, 16, 16, 120) {
-  bytes_section(r, SIGMA16, r.thorough() ? 6 : 5, 5);
+  bytes_section(r, SIGMA16, r.thorough() ? 6 : 5, 5, 4);
 }
 
 VF_SECTION(bytes28, 0, 16, 120) {
-  bytes_section(r, SIGMA28, 5, 4);
+  bytes_section(r, SIGMA28, 5, 4, 3);
 }
 
 VF_SECTION(grammar, 16, 16, 120) {
   FILE* dat = jref::dat_open(r.section, r.shard);
   r.note("JSON::parse");
-  std::vector<Toks> docs = grammar_docs(r.thorough());
+  std::vector<GDoc> docs = grammar_docs2(r.thorough());
   uint64_t ndocs = 0;
-  for (auto& d : docs) {
+  for (auto& gd : docs) {
+    const Toks& d = gd.toks;
+    // truncations of the documents beyond the quick tier's token bound go through the core entries only
+    const EntrySet trunc_es = gd.in_quick ? ES_FULL : ES_CORE;
     for (int ws = 0; ws < 3; ws++) {
       std::string text = render(d, ws);
       ndocs++;
@@ -397,7 +179,7 @@ VF_SECTION(grammar, 16, 16, 120) {
       // every proper truncation
       for (size_t k = 0; k < text.size(); k++) {
         if (!r.take()) continue;
-        text_case(r, text.substr(0, k), dat);
+        text_case(r, text.substr(0, k), dat, trunc_es);
       }
       // value followed by a delimiter / whitespace / junk (reader extent, trailing-data rule)
       if (ws != 1) {
@@ -485,13 +267,8 @@ std::vector<std::string> ext_variants(const Toks& d) {
   return out;
 }
 
-const std::vector<std::string> EXT_CORPUS = {"[1,]", "[1 , ]", "{\"a\":1,}", "[[1,],]", "[{\"a\":[],},]", "0x1F", "-0x10", "0x7FFFFFFFFFFFFFFF", "-0x8000000000000000", "0xff",
-    "[0x0,0x1]", "{\"a\":0xA}", "n", "t", "f", "[t,f,n]", "{\"a\":n}", "// c\n1", "1 // c", "1//", "[1, // c\n 2]", "{\"a\": // c\n 1}", "{ // c\n\"a\":1}", "[n,0x1,] // c"};
-
-const std::vector<std::string> STD_CORPUS = {"0", "-0", "10", "-1", "1.5", "5e-1", "1E+2", "1e2", "-1.25e-3", "0.000001", "1e20", "9223372036854775807", "-9223372036854775808",
-    "true", "false", "null", "\"\"", "\"a\"", "\"\\\"\"", "\"\\\\\"", "\"\\/\"", "\"\\b\\f\\n\\r\\t\"", "\"\\u0041\"", "\"\\u00e9\"", "\"\xC3\xA9\"", "\"a\\\"b\\\\c\"",
-    "[]", "{}", "[1]", "[1,2]", "[[]]", "[{}]", "{\"a\":1}", "{\"a\":1,\"b\":2}", "{\"a\":[]}", "{\"a\":{}}", "[1,[2,[3]]]", "{\"a\":{\"b\":{\"c\":null}}}",
-    " [ 1 , 2 ] ", "\n{\n\"a\" : true\n}\n", "[\"a\",1.5,null,true,false,{}]", "{\"\":\"\"}", "[-1.5e+3,0.5]", "[\"\\u00e9\",\"//\"]"};
+const std::vector<std::string>& EXT_CORPUS = ext_corpus();
+const std::vector<std::string>& STD_CORPUS = std_corpus();
 
 }  // namespace
 
@@ -555,10 +332,9 @@ VF_SECTION(mutate, 16, 16, 120) {
   r.bound = vf::fmt("every single-byte insertion/substitution/deletion (alphabet of %zu bytes) at every position of a %zu-document corpus (standard + extension documents)", alphabet.size(), corpus.size());
 }
 
-VF_SECTION(deep, 8, 8, 180) {
+VF_SECTION(deep, 16, 16, 180) {
   FILE* dat = jref::dat_open(r.section, r.shard);
   r.note("JSON::parse");
-  auto rep = [](const std::string& s, int n) { std::string o; for (int i = 0; i < n; i++) o += s; return o; };
   std::vector<std::pair<std::string, bool>> docs;  // text, enumerate-every-truncation
   for (int depth : {499, 500}) {
     docs.push_back({rep("[", depth) + rep("]", depth), depth == 500});
@@ -572,8 +348,17 @@ VF_SECTION(deep, 8, 8, 180) {
     docs.push_back({rep("[", depth) + "1" + rep(",]", depth), false});
     docs.push_back({rep("[//c\n", depth) + "n" + rep("]", depth), false});
   }
+  // exactly 499 / 500 alternating list/dictionary levels (the mixed document above has 498 / 500)
+  docs.push_back({rep("[{\"k\":", 249) + "[1]" + rep("}]", 249), false});
+  docs.push_back({rep("{\"k\":[", 249) + "{\"k\":1}" + rep("]}", 249), false});
+  docs.push_back({rep("{\"k\":[", 250) + "\"x\"" + rep("]}", 250), false});
   // beyond the statement's nesting bound: totality only (R_std flags too_deep)
   docs.push_back({rep("[", 501) + rep("]", 501), false});
+  docs.push_back({rep("[", 501) + "1" + rep("]", 501), false});
+  docs.push_back({rep("{\"a\":", 501) + "1" + rep("}", 501), false});
+  docs.push_back({rep("{\"a\":", 500) + "{}" + rep("}", 500), false});
+  docs.push_back({rep("[{\"k\":", 250) + "[1]" + rep("}]", 250), false});
+  docs.push_back({rep("{\"k\":[", 250) + "{\"k\":1}" + rep("]}", 250), false});
   docs.push_back({rep("[", 600) + rep("]", 600), false});
   docs.push_back({rep("{\"a\":", 600) + "1" + rep("}", 600), false});
   docs.push_back({rep("[", 600), false});
@@ -585,13 +370,15 @@ VF_SECTION(deep, 8, 8, 180) {
       text_case(r, text + suf, dat);
     }
     if (!trunc) continue;
+    // (an exception unwinding through 500 parser frames costs milliseconds under ASan: the truncations go through the
+    // three entry points x two modes only)
     for (size_t k = 0; k < text.size(); k++) {
       if (!r.take()) continue;
-      text_case(r, text.substr(0, k), dat);
+      text_case(r, text.substr(0, k), dat, ES_CORE);
     }
   }
   if (dat) fclose(dat);
-  r.bound = "lists / dictionaries / mixed / whitespace-padded / extension forms nested 499 and 500 deep (+ 3 suffixes each), every truncation of the 500-deep list, dictionary and mixed documents; 501 and 600 deep for totality only";
+  r.bound = "lists / dictionaries / alternating list-dictionary / whitespace-padded / extension forms nested exactly 499 and 500 deep (+ 3 suffixes each), every truncation of the 500-deep list, dictionary and mixed documents; 501 deep (list, dictionary, alternating) and 600 deep for totality only";
 }
 
 VF_MAIN()
